@@ -75,9 +75,11 @@ def reassemble (o : Opts) (line : Text) : List (List Word) → Nat → Nat → O
   | g :: gs, idx, n =>
     match g.getLast? with
     | none =>
+      -- an empty paragraph still carries its indent (`Cow::from("")` when the indent is empty)
+      let indent := if n = 0 then o.initialIndent else o.subsequentIndent
       match reassemble o line gs idx (n + 1) with
-      | some r => some ({ indent := [], start := idx, len := 0, slice := [], pen := [],
-                          borrowed := true, inBuf := false } :: r)
+      | some r => some ({ indent := indent, start := idx, len := 0, slice := [], pen := [],
+                          borrowed := indent.isEmpty, inBuf := false } :: r)
       | none => none
     | some last =>
       let total := (g.map fun w => blen w.word + blen w.ws).sum
@@ -111,7 +113,10 @@ def wrapSingleLineSlow (env : Env) (mo : MinimaOracle α) (o : Opts) (line : Tex
   match pipeline env o line subsequentWidth with
   | none => none
   | some words =>
-    match wrapAlg mo o.alg words [initialWidth, subsequentWidth] with
+    -- the first line of this paragraph carries the initial indent only if it is the very first
+    -- line of the output
+    let firstLineWidth := if nPrev = 0 then initialWidth else subsequentWidth
+    match wrapAlg mo o.alg words [firstLineWidth, subsequentWidth] with
     | none => none
     | some groups => reassemble o line groups 0 nPrev
 
